@@ -1,3 +1,6 @@
+import json
+import os
+
 from lib import std_flow
 
 
@@ -5,6 +8,58 @@ def run(ctx):
     ctx.assumptions += [
         "math/big and the Go compiler's sized integer arithmetic are trusted (the Go-side oracle uses math/big)",
         "Coq model Num/IntModel.v is hand-written in the shape of interpreter/value_{int,uint}*.go and values/value_int.go; tied by this run's correspondence",
+        "fixed-point kinds: model and proofs are shared with C15 (coq/theories/C15); github.com/onflow/fixed-point v0.1.1 (outside /repo, used by the "
+        "Fix128/UFix128 saturating functions) is NOT verified - it enters C13_fixed_saturating_clamps_partial as the hypothesis lib_as_assumed and is tied "
+        "only by this run's correspondence; Fix64/UFix64 saturating functions are transcribed and proved without assumption",
     ]
-    std_flow(ctx, "num", coq_targets=["Num/NumCases"],
-             mismatch_key=lambda d: "%s:%s:%s" % ({"C11": "checked-arith", "C13": "sat-arith"}[ctx.pid], d.get("type"), d.get("op")))
+    # phase 1: integer kinds (harness/num)
+    s1 = std_flow(ctx, "num", coq_targets=["Num/NumCases", "C15/Cases"],
+                  mismatch_key=lambda d: "%s:%s:%s" % ({"C11": "checked-arith", "C13": "sat-arith"}[ctx.pid], d.get("type"), d.get("op")))
+    if s1 is None:
+        return
+    cov1 = dict(ctx.cov)
+    # phase 2: fixed-point kinds - the C15 harness restricted to the saturating functions
+    binpath, out = ctx.go_build("c16")
+    if binpath is None:
+        ctx.failure("harness-build", "harness c16 no longer builds against /repo: " + out[-1500:],
+                    {"broken": "go build ./c16", "log": out[-3000:]}, no_input=True)
+        return
+    work2 = os.path.join(ctx.work, "fixed")
+    os.makedirs(work2, exist_ok=True)
+    for f in os.listdir(work2):
+        os.remove(os.path.join(work2, f))
+    rc, out = ctx.go_run(binpath, ["-prop", "C15", "-only", "sat", "-seed", ctx.seed, "-tier", ctx.tier, "-dir", work2], timeout=1500)
+    spath = os.path.join(work2, "summary.json")
+    if rc != 0 or not os.path.exists(spath):
+        ctx.failure("harness-run", "fixed-point harness run failed (rc=%s): %s" % (rc, out[-1500:]),
+                    {"broken": "harness run c16 -only sat", "log": out[-3000:]}, no_input=True)
+        return
+    s2 = json.load(open(spath))
+    for f in s2.get("failures") or []:
+        ctx.failure(f["key"], f["what"], f["replay"])
+    files = s2.get("case_files") or []
+    nm = 0
+    if files:
+        res, errs = ctx.coq_cases(files, timeout=1500)
+        for path, log in errs.items():
+            ctx.failure("model-eval", "Coq evaluation of %s failed: %s" % (os.path.basename(path), log[-800:]),
+                        {"broken": "correspondence evaluation " + path, "log": log[-2000:]}, no_input=True)
+        for path, idxs in res.items():
+            if not idxs:
+                continue
+            descs = [json.loads(l) for l in open(path[:-2] + ".jsonl")]
+            for i in idxs:
+                nm += 1
+                d = descs[i] if i < len(descs) else {"index": i}
+                ctx.failure("fix-model:%s:%s" % (d.get("type"), d.get("op")),
+                            "implementation and Coq model disagree on %s" % json.dumps(d)[:500],
+                            {"case": d, "case_file": os.path.basename(path), "index": i})
+    ctx.cov.update(cov1)
+    ctx.cov["evaluations"] = cov1.get("evaluations", 0) + s2.get("evaluations", 0)
+    ctx.cov["distinct_nontrivial"] = cov1.get("distinct_nontrivial", 0) + s2.get("distinct_nontrivial", 0)
+    ctx.cov["rule"] = "INTEGER KINDS: " + cov1.get("rule", "") + " || FIXED-POINT KINDS (saturating functions only): " + s2.get("rule", "")
+    ctx.cov["samples"] = (cov1.get("samples") or [])[:6] + (s2.get("samples") or [])[:6]
+    ctx.cov["fixed_point"] = {"evaluations": s2.get("evaluations", 0), "distinct_nontrivial": s2.get("distinct_nontrivial", 0),
+                              "distribution": s2.get("distribution") or {}, "coq_case_files": len(files), "model_mismatches": nm,
+                              "direct_failures": len(s2.get("failures") or [])}
+    ctx.settle_l1()
